@@ -40,7 +40,7 @@ LEVEL_TEXT = ('Every selector setting is executed on every bounded DAG and '
               'and of the substituted graph.')
 LEVEL_NOTE = ('Trusted: the matcher and substitution model in this file, '
               'mc.canon. Bounds: N<=2 full menu, N=3 reduced menu (quick); '
-              'N<=3 / N=4 reduced (thorough).')
+              'N<=3 with larger reduced menus (thorough).')
 
 
 def mk(cls, fn):
@@ -89,8 +89,7 @@ def bounds(tier):
     return dict(families=[[FULL, 2, 1], [SMALL, 3, 1],
                           [['cBase', 'pMid', 'nt', 'ntsub'], 3, 1]])
   return dict(families=[[FULL, 2, 1], [SMALL + ['cfn', 'dict1'], 3, 1],
-                        [['cBase', 'pMid', 'nt', 'ntsub', 'list2'], 3, 1],
-                        [['cBase', 'cLeaf', 'list2'], 4, 1]])
+                        [['cBase', 'pMid', 'nt', 'ntsub', 'list2'], 3, 1]])
 
 
 def units(tier, seed):
